@@ -4,17 +4,17 @@
 mod __verif_kani {
     use super::*;
 
-    //@ kind=P props=C31 fn=words_to_bytes,bytes_to_words : round trip bytes_to_words(words_to_bytes(w)) == w and the bytes are the native-endian bytes of each word, for symbolic word vectors (length 4; the cast is length-generic)
+    //@ kind=P props=C31 fn=words_to_bytes,bytes_to_words : round trip bytes_to_words(words_to_bytes(w)) == w and the bytes are the native-endian bytes of each word, for symbolic word vectors (length <= 2; the cast is length-generic)
     #[kani::proof]
     #[kani::unwind(40)]
     pub fn c31_words_bytes_roundtrip() {
-        let w: [u64; 4] = kani::any();
+        let w: [u64; 2] = kani::any();
         let n: usize = kani::any();
-        kani::assume(n <= 4);
+        kani::assume(n <= 2);
         let b = words_to_bytes(&w[..n]);
         assert!(b.len() == 8 * n);
         let mut i = 0;
-        while i < 4 {
+        while i < 2 {
             if i < n {
                 let e = w[i].to_ne_bytes();
                 let mut j = 0;
@@ -25,11 +25,11 @@ mod __verif_kani {
         let back = bytes_to_words(b);
         assert!(back.len() == n);
         let mut i = 0;
-        while i < 4 { if i < n { assert!(back[i] == w[i]); } i += 1; }
+        while i < 2 { if i < n { assert!(back[i] == w[i]); } i += 1; }
         let v = bytes_to_words_vec(b);
         assert!(v.len() == n);
         let mut i = 0;
-        while i < 4 { if i < n { assert!(v[i] == w[i]); } i += 1; }
+        while i < 2 { if i < n { assert!(v[i] == w[i]); } i += 1; }
     }
 
     fn expect_word(buf: &[u8], at: usize) -> u64 {
@@ -39,19 +39,19 @@ mod __verif_kani {
         u64::from_ne_bytes(a)
     }
 
-    //@ kind=P props=C31 fn=bytes_to_words_vec : for a byte slice starting at ANY offset 0..8 of a buffer (the buffer object is 8-aligned in CBMC, so offsets 0..8 enumerate every alignment) and any length n*8 (n<=3): no panic and the result is the native-endian words
+    //@ kind=P props=C31 fn=bytes_to_words_vec : for a byte slice starting at ANY offset 0..8 of a buffer (the buffer object is 8-aligned in CBMC, so offsets 0..8 enumerate every alignment) and any length n*8 (n<=2): no panic and the result is the native-endian words
     #[kani::proof]
     #[kani::unwind(40)]
     pub fn c31_bytes_to_words_vec_any_alignment() {
-        let buf: [u8; 40] = kani::any();
+        let buf: [u8; 24] = kani::any();
         let off: usize = kani::any();
         let n: usize = kani::any();
-        kani::assume(off < 8 && n <= 3);
+        kani::assume(off < 8 && n <= 2);
         let s = &buf[off..off + 8 * n];
         let v = bytes_to_words_vec(s);
         assert!(v.len() == n);
         let mut i = 0;
-        while i < 3 { if i < n { assert!(v[i] == expect_word(&buf, off + 8 * i)); } i += 1; }
+        while i < 2 { if i < n { assert!(v[i] == expect_word(&buf, off + 8 * i)); } i += 1; }
     }
 
     //@ kind=P props=C31 fn=try_bytes_to_words : for a slice at any offset 0..8 (any alignment) and ANY length <= 31: never panics; None for lengths that are not a multiple of 8; whenever it returns Some the words are the native-endian words
